@@ -1058,7 +1058,12 @@ func stepUpdate(o *Out, c *typCtx, up *merge.Updater, ig ignoreCfg, st *updState
 				o.Fail("C08", "updater/failure-returns-no-object", err.Error(), "updater/failure-returns-no-object "+op, op)
 			}
 			if !st.conv.degraded() {
-				o.Fail("C06", "update-never-fails-on-valid-input", err.Error(), "update-never-fails-on-valid-input "+op, op)
+				if ig.kind != "none" && st.tainted && strings.Contains(err.Error(), "failed to compare objects") {
+					// the live object was mutilated by an earlier re-apply under the ignore configuration (finding D8)
+					o.Fail("C19", "live-object-valid-under-ignore", err.Error(), "live-object-valid-under-ignore/D8-prune-under-ignore-configuration "+op, op)
+				} else {
+					o.Fail("C06", "update-never-fails-on-valid-input", err.Error(), "update-never-fails-on-valid-input "+op, op)
+				}
 			}
 			return "err"
 		}
